@@ -47,6 +47,10 @@ def scripts(rnd, quick):
     rnd.shuffle(sc)
     if quick:
         sc = sc[: 4000]
+    # the same emissions into a sink that refuses its k-th call, followed by a further request: what went out is a prefix of the
+    # prescribed image and a sequence number that reached the wire is not used again
+    sc += ['emitf %d %s' % (k, l[5:]) for l in sc[:300 if quick else 3000] for k in (1, 2, 3, 4, 6)]
+    rnd.shuffle(sc)
     for i in range(0, len(sc), 250):
         yield sc[i:i + 250]
 
